@@ -1,4 +1,5 @@
 //! Correspondence harness of property C19 (regex compilation, automaton parsing, base64).
+mod circuit;
 mod reference;
 mod spec;
 
@@ -813,9 +814,415 @@ fn run_library(ctx: &mut Ctx) {
     }
 }
 
+// ---------------------------------------------------------------------------------------------
+// In-circuit automaton parser (AutomatonChip::parse under MockProver)
+// ---------------------------------------------------------------------------------------------
+
+fn k_for(a: &Automaton, input_len: usize) -> u32 {
+    let rows = (a.transitions.len() + a.final_states.len() + 1).max(300).max(4 * input_len + 64);
+    let mut k = 9;
+    while (1usize << k) < rows + 64 {
+        k += 1;
+    }
+    k
+}
+
+fn parse_cases(ctx: &mut Ctx, a: &Automaton, label: &str, rng: &mut ChaCha8Rng, nwords: usize, max_len: usize) {
+    use circuit::{run_parse, Verdict};
+    let text = dfa_text(a);
+    let mut words: Vec<Vec<u8>> = vec![vec![]];
+    for i in 0..nwords {
+        if let Some(w) = sample_accepted(a, rng, if i % 3 == 0 { max_len } else { max_len / 3 }) {
+            let mut m = w.clone();
+            words.push(w);
+            if !m.is_empty() {
+                match rng.gen_range(0..4) {
+                    0 => {
+                        let i = rng.gen_range(0..m.len());
+                        m[i] = m[i].wrapping_add(1 + rng.gen_range(0..3));
+                    }
+                    1 => {
+                        m.pop();
+                    }
+                    2 => {
+                        let i = rng.gen_range(0..m.len());
+                        m.remove(i);
+                    }
+                    _ => m.push(POOL[rng.gen_range(0..POOL.len())]),
+                }
+                words.push(m);
+            }
+        }
+    }
+    words.sort();
+    words.dedup();
+    for w in words {
+        let k = k_for(a, w.len());
+        let expected = accepts(a, &w);
+        let v = run_parse(a, &w, None, k);
+        let ans = match &v {
+            Verdict::Ok(ms) => format!("ok {}", mzkh::join(ms)),
+            Verdict::Stuck => {
+                ctx.count("parse:prover-stuck");
+                "reject".to_string()
+            }
+            Verdict::Unsat => {
+                ctx.count("parse:unsatisfied");
+                "reject".to_string()
+            }
+            Verdict::Panic(p) => format!("panic {p}"),
+        };
+        ctx.count(&format!("parse:len-{}", match w.len() { 0 => "0", 1..=8 => "1-8", 9..=40 => "9-40", _ => "41+" }));
+        ctx.case(
+            if expected.is_some() { "parse-accepted" } else { "parse-rejected" },
+            !w.is_empty(),
+            &format!("parse {text} | {}", hex(&w)),
+            &ans,
+        );
+        // the property itself: satisfiable exactly for accepted inputs, with exactly the markers
+        let ok = match (&v, &expected) {
+            (Verdict::Ok(ms), Some(e)) => ms.iter().map(|x| *x as usize).collect::<Vec<_>>() == *e,
+            (Verdict::Stuck | Verdict::Unsat, None) => true,
+            _ => false,
+        };
+        if !ok {
+            ctx.oracle_fail(
+                &format!("parse-circuit:{label}:{}", hex(&w)),
+                "AutomatonChip::parse is not satisfiable exactly for the accepted inputs with their markers",
+                json!({"automaton": text, "input": w, "expected": expected, "circuit": ans}),
+            );
+        }
+        // claimed markers: the right ones are accepted, a wrong one is refused
+        if let Some(e) = expected {
+            if !e.is_empty() {
+                let mut wrong: Vec<u64> = e.iter().map(|x| *x as u64).collect();
+                let i = rng.gen_range(0..wrong.len());
+                wrong[i] += 1;
+                for (claim, want) in [(e.iter().map(|x| *x as u64).collect::<Vec<u64>>(), true), (wrong, false)] {
+                    let v = run_parse(a, &w, Some(claim.clone()), k);
+                    let got = matches!(v, Verdict::Ok(_));
+                    let marks: Vec<usize> = claim.iter().map(|x| *x as usize).collect();
+                    ctx.case(
+                        if want { "parse-claim-right" } else { "parse-claim-wrong" },
+                        true,
+                        &format!("parsewith {text} | {}", word_text(&w, &marks)),
+                        if got { "1" } else { "0" },
+                    );
+                    if got != want {
+                        ctx.oracle_fail(
+                            &format!("parse-circuit-markers:{label}:{}", hex(&w)),
+                            "AutomatonChip::parse accepts a wrong marker sequence (or refuses the right one)",
+                            json!({"automaton": text, "input": w, "claimed": claim, "accepted": got}),
+                        );
+                    }
+                }
+            }
+        }
+    }
+}
+
+fn run_parse_circuit(ctx: &mut Ctx) {
+    use Spec::*;
+    let mut rng = ctx.rng("parse-circuit");
+    let bx = Box::new;
+    let w = |s: &str| Word(s.as_bytes().to_vec());
+    // the two hard-coded examples of automaton_chip.rs (tests) and a marked list
+    let hellos = SepNonEmptyList(bx(w("hello")), bx(BlanksStrict));
+    let worlds = SepNonEmptyList(bx(w("world")), bx(Cat(vec![Blanks, w(","), Blanks])));
+    let example0 = SepCat(
+        vec![
+            Terminated(bx(hellos), bx(OneBlank)),
+            Delimited(bx(Delimited(bx(worlds), bx(Blanks), bx(Blanks))), bx(w("(")), bx(w(")"))),
+            Repeat(bx(w("!")), 5),
+            List(bx(Minus(bx(AnyByte), bx(w("!"))))),
+        ],
+        bx(Blanks),
+    );
+    let mut tbl: Vec<(u8, usize)> = (0..=255u8)
+        .filter(|b| !b"h\n\t l".contains(b))
+        .map(|b| (b, 1))
+        .collect();
+    tbl.push((b'l', 2));
+    tbl.sort();
+    let marker_regex = List(bx(Mark(bx(AnyByte), tbl)));
+    let holy = Terminated(bx(w("holy")), bx(List(bx(w("y")))));
+    let example1 = And(
+        bx(SepCat(vec![holy, w("hell"), NonEmptyList(bx(w("!")))], bx(BlanksStrict))),
+        bx(marker_regex),
+    );
+    let marked_list = SepList(
+        bx(MarkBytes(bx(NonEmptyList(bx(Digit))), (b'0'..=b'9').collect(), 3)),
+        bx(w(",")),
+    );
+    let mut specs = vec![("example0", example0), ("example1", example1), ("marked-list", marked_list), ("json-string", JsonString)];
+    let n_random = if ctx.quick() { 4 } else { 30 };
+    let mut tries = 0;
+    let mut grng = ctx.rng("parse-circuit-gen");
+    let mut extra = vec![];
+    while extra.len() < n_random && tries < 2000 {
+        tries += 1;
+        let s = gen(&mut grng, 3, true);
+        if spec_size(&s) > 30 {
+            continue;
+        }
+        if let Ok(r) = catch(|| build(&s)) {
+            let t = r.verif_dump();
+            if has_marked_complement(&t) {
+                continue;
+            }
+            if let Ok(a) = catch(|| r.to_automaton()) {
+                if a.nb_states >= 3 && a.nb_states <= 40 {
+                    extra.push(s);
+                }
+            }
+        }
+    }
+    let nwords = if ctx.quick() { 5 } else { 14 };
+    for (name, s) in specs.drain(..) {
+        let a = build(&s).to_automaton();
+        parse_cases(ctx, &a, name, &mut rng, nwords, 40);
+    }
+    for (i, s) in extra.iter().enumerate() {
+        let a = build(s).to_automaton();
+        parse_cases(ctx, &a, &format!("random{i}"), &mut rng, nwords, 40);
+    }
+    // the shipped Jwt automaton
+    for (name, _, bytes) in verif_spec_library_data() {
+        if let Ok(Ok((a, _))) = catch(|| verif_deserialize_automaton(bytes)) {
+            parse_cases(ctx, &a, &format!("library:{name}"), &mut rng, if ctx.quick() { 1 } else { 4 }, 700);
+        }
+    }
+}
+
+// ---------------------------------------------------------------------------------------------
+// Base64 (Base64Chip under MockProver)
+// ---------------------------------------------------------------------------------------------
+
+const B64_STD: &[u8; 64] = b"ABCDEFGHIJKLMNOPQRSTUVWXYZabcdefghijklmnopqrstuvwxyz0123456789+/";
+
+/// RFC 4648 encoding (independent reference).
+fn b64_encode(bytes: &[u8], pad: bool, url: bool) -> Vec<u8> {
+    let mut out = vec![];
+    for c in bytes.chunks(3) {
+        let t = ((c[0] as u32) << 16) | ((*c.get(1).unwrap_or(&0) as u32) << 8) | (*c.get(2).unwrap_or(&0) as u32);
+        let chars = [(t >> 18) & 63, (t >> 12) & 63, (t >> 6) & 63, t & 63];
+        for (i, v) in chars.iter().enumerate() {
+            if i <= c.len() {
+                out.push(B64_STD[*v as usize]);
+            } else if pad {
+                out.push(b'=');
+            }
+        }
+    }
+    if url {
+        for c in out.iter_mut() {
+            if *c == b'+' {
+                *c = b'-'
+            } else if *c == b'/' {
+                *c = b'_'
+            }
+        }
+    }
+    out
+}
+
+fn b64_case(ctx: &mut Ctx, kind: &str, input: &[u8], mode: circuit::B64Mode, expect: Option<Option<Vec<u8>>>) {
+    use circuit::{run_b64, B64Verdict};
+    let v = run_b64(input, mode, 13);
+    let ans = match &v {
+        B64Verdict::Ok(out) => format!("ok {}", hex(out)),
+        B64Verdict::Stuck => {
+            ctx.count("b64:prover-stuck");
+            "unsat".to_string()
+        }
+        B64Verdict::Unsat => {
+            ctx.count("b64:unsatisfied");
+            "unsat".to_string()
+        }
+        B64Verdict::Panic(p) => {
+            if p.contains("Valid base64 character") {
+                ctx.count("b64:prover-cannot-decode-char");
+                "unsat".to_string()
+            } else {
+                ctx.count("b64:panic-length");
+                "panic".to_string()
+            }
+        }
+    };
+    let m = format!(
+        "{} {}",
+        if mode.url { "url" } else { "std" },
+        if mode.var { "var" } else if mode.padded { "pad" } else { "nopad" }
+    );
+    ctx.count(&format!("b64:{kind}:{m}"));
+    ctx.case(&format!("b64-{kind}"), !input.is_empty(), &format!("b64 {m} {}", hex(input)), &ans);
+    // the property itself
+    match expect {
+        Some(Some(bytes)) => {
+            // well-formed: satisfiable, output = bytes + zero fill
+            let mut want = bytes.clone();
+            while want.len() % 3 != 0 {
+                want.push(0);
+            }
+            if ans != format!("ok {}", hex(&want)) {
+                ctx.oracle_fail(
+                    &format!("b64-wellformed:{m}:{}", hex(input)),
+                    "in-circuit base64 decoding of a well-formed input differs from the standard decoding",
+                    json!({"mode": m, "input": hex(input), "expected": hex(&want), "circuit": ans}),
+                );
+            }
+        }
+        Some(None) => {
+            if ans.starts_with("ok") {
+                ctx.oracle_fail(
+                    &format!("b64-malformed:{m}:{}", hex(input)),
+                    "in-circuit base64 decoding is satisfiable on a malformed input",
+                    json!({"mode": m, "input": hex(input), "circuit": ans}),
+                );
+            }
+        }
+        None => {}
+    }
+}
+
+fn run_base64(ctx: &mut Ctx) {
+    use circuit::B64Mode;
+    let mut rng = ctx.rng("base64");
+    let max_bytes = 48usize;
+    let lens: Vec<usize> = (0..=max_bytes).collect();
+    for &n in &lens {
+        let reps = if ctx.quick() { 1 } else { 2 };
+        for rep in 0..reps {
+            let bytes: Vec<u8> = (0..n)
+                .map(|i| match (rep, n % 5) {
+                    (0, 0) => 0xff,
+                    (0, 1) => 0x00,
+                    // 0xfb 0xef 0xbe.. produce '+', '/', '-' and '_' characters
+                    (0, 2) => [0xfb, 0xef, 0xbe, 0xff, 0xfe][i % 5],
+                    _ => rng.gen(),
+                })
+                .collect();
+            for url in [false, true] {
+                for padded in [true, false] {
+                    let enc = b64_encode(&bytes, padded, url);
+                    b64_case(ctx, "wellformed", &enc, B64Mode { padded, url, var: false }, Some(Some(bytes.clone())));
+                }
+                // a standard-alphabet input through the url decoder, and conversely
+                let enc_std = b64_encode(&bytes, true, false);
+                let enc_url = b64_encode(&bytes, true, true);
+                if url && enc_std != enc_url {
+                    b64_case(ctx, "std-chars-in-url-mode", &enc_std, B64Mode { padded: true, url: true, var: false }, None);
+                    b64_case(ctx, "url-chars-in-std-mode", &enc_url, B64Mode { padded: true, url: false, var: false }, Some(None));
+                }
+                // variable length (capacity 64)
+                let enc = b64_encode(&bytes, true, url);
+                if enc.len() <= circuit::VAR_M && (ctx.thorough() || n % 3 != 2 || n < 8) {
+                    b64_case(ctx, "wellformed", &enc, B64Mode { padded: true, url, var: true }, Some(Some(bytes.clone())));
+                }
+            }
+        }
+    }
+    // every input length 0..64 in unpadded mode (random alphabet characters), and every length
+    // in padded mode (the lengths that are not multiples of 4 make the decoder panic)
+    for n in 0..=64usize {
+        let input: Vec<u8> = (0..n).map(|_| B64_STD[rng.gen_range(0..64)]).collect();
+        b64_case(ctx, "anylength", &input, B64Mode { padded: false, url: false, var: false }, None);
+        if n % 4 != 0 && (ctx.thorough() || n < 12) {
+            b64_case(ctx, "badlength", &input, B64Mode { padded: true, url: false, var: false }, None);
+            b64_case(ctx, "badlength", &input, B64Mode { padded: true, url: false, var: true }, None);
+        }
+    }
+    // every padding form on the last chunk
+    for (tail, wellformed) in [
+        (&b"QUJD"[..], true),
+        (b"QUI=", true),
+        (b"QQ==", true),
+        (b"QR==", true), // non-canonical trailing bits: accepted by the circuit (documented leniency)
+        (b"QUJ=", true),
+        (b"Q===", false),
+        (b"====", false),
+        (b"=QQQ", false),
+        (b"Q=QQ", false),
+        (b"QQ=Q", false),
+        (b"QQ=A", false),
+        (b"QQQ=", true),
+        (b"=", false),
+        (b"Q=", false),
+    ] {
+        for prefix in [&b""[..], b"QUJD", b"QUJDQUJD"] {
+            let mut input = prefix.to_vec();
+            input.extend(tail);
+            for url in [false, true] {
+                for padded in [true, false] {
+                    if padded && input.len() % 4 != 0 {
+                        continue;
+                    }
+                    let expect = if !wellformed || !padded && tail.contains(&b'=') { Some(None) } else { None };
+                    b64_case(ctx, "padding-form", &input, B64Mode { padded, url, var: false }, expect);
+                }
+                if input.len() % 4 == 0 {
+                    let expect = if !wellformed { Some(None) } else { None };
+                    b64_case(ctx, "padding-form", &input, B64Mode { padded: true, url, var: true }, expect);
+                }
+            }
+        }
+    }
+    // '=' in a chunk that is not the last one
+    for input in [&b"QQ==QUJD"[..], b"QUI=QUJD", b"QUJDQQ==QUJD"] {
+        for var in [false, true] {
+            b64_case(ctx, "early-padding", input, B64Mode { padded: true, url: false, var }, Some(None));
+        }
+    }
+    // single-character corruptions
+    let corrupt_lens: Vec<usize> = if ctx.quick() { vec![1, 2, 3, 7, 12] } else { (1..=24).chain([31, 32, 33, 47, 48]).collect() };
+    for &n in &corrupt_lens {
+        let bytes: Vec<u8> = (0..n).map(|_| rng.gen()).collect();
+        for url in [false, true] {
+            let enc = b64_encode(&bytes, true, url);
+            let positions: Vec<usize> = if ctx.quick() {
+                let mut p = vec![0, enc.len() - 1, enc.len() - 2, enc.len() / 2];
+                p.sort();
+                p.dedup();
+                p
+            } else {
+                (0..enc.len()).collect()
+            };
+            for &i in &positions {
+                let bad: Vec<u8> = if ctx.quick() { vec![b'!', 0xff] } else { vec![b'!', 0x00, 0xff, b'.', b'@', b'[', b'`', b'{', b':'] };
+                for c in bad {
+                    let mut input = enc.clone();
+                    input[i] = c;
+                    for (padded, var) in [(true, false), (false, false), (true, true)] {
+                        if var && (input.len() > circuit::VAR_M || !(ctx.thorough() || i % 2 == 0)) {
+                            continue;
+                        }
+                        b64_case(ctx, "corrupted", &input, B64Mode { padded, url, var }, Some(None));
+                    }
+                }
+                // a misplaced '='
+                if i + 2 < enc.len() {
+                    let mut input = enc.clone();
+                    input[i] = b'=';
+                    b64_case(ctx, "corrupted-pad", &input, B64Mode { padded: true, url, var: false }, Some(None));
+                }
+                // another alphabet character: still satisfiable, different output (model decides)
+                let mut input = enc.clone();
+                if input[i] != b'=' {
+                    input[i] = if input[i] == b'B' { b'C' } else { b'B' };
+                    b64_case(ctx, "substituted", &input, B64Mode { padded: true, url, var: false }, None);
+                }
+            }
+        }
+    }
+}
+
 fn main() {
     let mut ctx = Ctx::from_args("C19");
     run_regex(&mut ctx);
     run_library(&mut ctx);
+    if !ctx.search() {
+        run_parse_circuit(&mut ctx);
+        run_base64(&mut ctx);
+    }
     ctx.finish();
 }
